@@ -23,22 +23,15 @@ Theorem memory_read_eq_spec_refuted :
 Proof. exact ReadProofs.memory_read_eq_spec_refuted. Qed.
 Print Assumptions memory_read_eq_spec_refuted.
 
-(* missing part: user filter "type:id" while a userset type:id#rel is stored *)
-Theorem sql_read_eq_spec_partial : forall s f,
-  wf_read_filter f = true -> flag_read_relationless_user s f = false ->
-  sql_read s f = read_spec s f.
-Proof. exact ReadProofs.sql_read_eq_spec_partial. Qed.
-Print Assumptions sql_read_eq_spec_partial.
-
-Theorem sql_read_eq_spec_refuted :
-  exists s f, wf_store s = true /\ keys_unique s = true /\ wf_read_filter f = true /\
-              ~ Permutation (sql_read s f) (read_spec s f).
-Proof. exact ReadProofs.sql_read_eq_spec_refuted. Qed.
-Print Assumptions sql_read_eq_spec_refuted.
+(* full statement since fix a279b76 (before it: a user filter "type:id" also returned type:id#rel) *)
+Theorem sql_read_eq_spec : forall s f,
+  wf_read_filter f = true -> sql_read s f = read_spec s f.
+Proof. exact ReadProofs.sql_read_eq_spec. Qed.
+Print Assumptions sql_read_eq_spec.
 
 Theorem memory_eq_sql_read : forall s f,
   wf_read_filter f = true ->
-  flag_read_all_ignores_conditions s f = false -> flag_read_relationless_user s f = false ->
+  flag_read_all_ignores_conditions s f = false ->
   Permutation (memory_read s f) (sql_read s f).
 Proof. exact ReadProofs.memory_eq_sql_read. Qed.
 Print Assumptions memory_eq_sql_read.
@@ -46,7 +39,8 @@ Print Assumptions memory_eq_sql_read.
 Example read_nonvacuous :
   let f := mkRF (OType b_doc) b_viewer (UExact (mkUser b_group b_1 b_member)) [b_c1] in
   wf_read_filter f = true /\ flag_read_all_ignores_conditions w_store f = false /\
-  flag_read_relationless_user w_store f = false /\ read_spec w_store f = [w_t2].
+  read_spec w_store f = [w_t2] /\
+  sql_read w_store (mkRF OAny [] (UExact (mkUser b_group b_1 [])) []) = [w_t3].
 Proof. vm_compute. auto. Qed.
 
 (* ---- ReadUserTuple ---- *)
@@ -148,40 +142,30 @@ Theorem memory_rswu_eq_spec_refuted :
 Proof. exact ReadProofs.memory_rswu_eq_spec_refuted. Qed.
 Print Assumptions memory_rswu_eq_spec_refuted.
 
-(* missing parts: a user filter without relation while a userset of that object is stored; a
-   present-but-empty ObjectIDs set *)
+(* missing part: a present-but-empty ObjectIDs set (the relation-less user filter part was repaired
+   by a279b76) *)
 Theorem sql_rswu_eq_spec_partial : forall s f,
-  flag_rswu_relationless_user s f = false -> flag_rswu_empty_object_ids f = false ->
-  sql_rswu s f = rswu_spec s f.
+  flag_rswu_empty_object_ids f = false -> sql_rswu s f = rswu_spec s f.
 Proof. exact ReadProofs.sql_rswu_eq_spec_partial. Qed.
 Print Assumptions sql_rswu_eq_spec_partial.
 
-Theorem sql_rswu_eq_spec_refuted_relationless :
-  exists s f, wf_store s = true /\ keys_unique s = true /\
-              flag_rswu_empty_object_ids f = false /\
-              ~ Permutation (sql_rswu s f) (rswu_spec s f).
-Proof. exact ReadProofs.sql_rswu_eq_spec_refuted_relationless. Qed.
-Print Assumptions sql_rswu_eq_spec_refuted_relationless.
-
 Theorem sql_rswu_eq_spec_refuted_empty_object_ids :
   exists s f, wf_store s = true /\ keys_unique s = true /\
-              flag_rswu_relationless_user s f = false /\
               ~ Permutation (sql_rswu s f) (rswu_spec s f).
 Proof. exact ReadProofs.sql_rswu_eq_spec_refuted_empty_object_ids. Qed.
 Print Assumptions sql_rswu_eq_spec_refuted_empty_object_ids.
 
 Theorem memory_eq_sql_rswu : forall s f,
-  flag_rswu_duplicate_user_filter f = false ->
-  flag_rswu_relationless_user s f = false -> flag_rswu_empty_object_ids f = false ->
+  flag_rswu_duplicate_user_filter f = false -> flag_rswu_empty_object_ids f = false ->
   Permutation (memory_rswu s f) (sql_rswu s f).
 Proof. exact ReadProofs.memory_eq_sql_rswu. Qed.
 Print Assumptions memory_eq_sql_rswu.
 
 Example rswu_nonvacuous :
   let f := mkSF b_doc b_viewer [mkUser b_group b_1 b_member; mkUser b_user star []] (Some [b_2]) [[]; b_c1] in
-  flag_rswu_duplicate_user_filter f = false /\
-  flag_rswu_relationless_user w_store f = false /\ flag_rswu_empty_object_ids f = false /\
-  rswu_spec w_store f = [w_t2; w_t4].
+  flag_rswu_duplicate_user_filter f = false /\ flag_rswu_empty_object_ids f = false /\
+  rswu_spec w_store f = [w_t2; w_t4] /\
+  sql_rswu w_store (mkSF b_doc b_viewer [mkUser b_group b_1 []] None []) = [w_t3].
 Proof. vm_compute. auto. Qed.
 
 (* the two backends disagree with each other on the unchanged code *)
